@@ -18,7 +18,7 @@ use marwood::vm::Vm;
 use std::time::Duration;
 
 /// (kind label, expression producing a fresh value)
-pub const PALETTE: [(&str, &str); 62] = [
+pub const PALETTE: [(&str, &str); 66] = [
     ("int:0", "0"),
     ("int:1", "1"),
     ("int:-1", "-1"),
@@ -81,6 +81,11 @@ pub const PALETTE: [(&str, &str); 62] = [
     ("proc:continuation", "(call/cc (lambda (k) k))"),
     ("macro-value", "and"),
     ("unspecified", "(if #f #f)"),
+    // (appended so that the indices above stay stable)
+    ("int:8", "8"),
+    ("int:16", "16"),
+    ("char:non-ascii-digit", "#\\x664"),
+    ("char:superscript-digit", "#\\xb2"),
 ];
 
 /// arguments that are requested sizes: values above 10^6 there are outside the property's quantifier
@@ -335,13 +340,13 @@ impl Plan {
             if ctx.quick() {
                 let mut rng = ctx.rng("c06-call2", i);
                 let proc = self.procs[(i % np) as usize].clone();
-                // the first 169 of the 400 pairs per procedure are all ordered pairs of the numeric
+                // the first 225 of the 400 pairs per procedure are all ordered pairs of the numeric
                 // boundary values (0, +-1, i32/i64 extremes, 2^63, non-canonical bignum, integer-valued
-                // rational, infinities, NaN); the rest are sampled from the whole palette
-                const BOUNDARY: [usize; 13] = [0, 1, 2, 7, 8, 9, 11, 12, 13, 16, 20, 27, 29];
+                // rational, infinities, NaN, the radixes 8 and 16); the rest are sampled from the whole palette
+                const BOUNDARY: [usize; 15] = [0, 1, 2, 7, 8, 9, 11, 12, 13, 16, 20, 27, 29, 62, 63];
                 let j = (i / np) as usize;
-                if j < 169 {
-                    return Case::Call { proc, args: vec![BOUNDARY[j / 13], BOUNDARY[j % 13]], shared: false };
+                if j < 225 {
+                    return Case::Call { proc, args: vec![BOUNDARY[j / 15], BOUNDARY[j % 15]], shared: false };
                 }
                 return Case::Call { proc, args: vec![rng.usize(self.p), rng.usize(self.p)], shared: rng.chance(1, 8) };
             }
